@@ -1,6 +1,6 @@
 (* GenMedia.v - GENERATED from /repo by /verif/translator; do not edit.
-   source cssutils/stylesheets/mediaquery.py sha1 ee6f0a4d30d1
-   source cssutils/stylesheets/medialist.py sha1 8898a9fd73eb
+   source cssutils/stylesheets/mediaquery.py sha1 acbfe5b0c319
+   source cssutils/stylesheets/medialist.py sha1 c0f2f1bdb301
 *)
 From Coq Require Import List NArith ZArith Bool.
 From CssV Require Import Base.Regex Base.Tokens.
